@@ -143,6 +143,7 @@ func (r *RecUDPAssoc) Events() []UDPEvent {
 	defer r.mu.Unlock()
 	return append([]UDPEvent(nil), r.events...)
 }
+
 // RemovedAt returns when the first removal was reported (zero if not yet).
 func (r *RecUDPAssoc) RemovedAt() time.Time {
 	for _, e := range r.Events() {
